@@ -57,6 +57,8 @@ def plan(tier, seed):
         cases.append({"kind": "hashseed", "seed": seed, "k": k})
     for k in range(4 if tier == "quick" else 60):
         cases.append({"kind": "history_shipped", "seed": seed, "k": k})
+    for k in range(8 if tier == "quick" else 120):
+        cases.append({"kind": "simple_multi", "seed": seed, "k": k})
     for k in range(10 if tier == "quick" else 250):
         cases.append({"kind": "minor_isolation", "seed": seed, "k": k})
     return cases
@@ -136,7 +138,7 @@ def _history_case(res, case):
     bam = pr.bam("h_s.bam", ca, cb, rl, depth, rng)
     params = {}
     if rng.random() < 0.4:
-        params["gap"] = rng.choice([0.1, 0.3])
+        params["gap"] = rng.choice([0.1, 0.1, 0.3])
     if rng.random() < 0.4:
         params["max_minor_solutions"] = rng.choice([2, 3])
     if rng.random() < 0.3:
@@ -156,7 +158,7 @@ def _history_case(res, case):
                      "MCAB": [pr.c.path, pr.a.path, pr.b.path]}[op]
             outp = os.path.join(util.scratch_dir(), f"h_{oi}.aldy")
             try:
-                with util.time_limit(120):
+                with util.time_limit(40):
                     with open(outp, "w") as f:
                         out = _genotype(paths, bam, refbam, pr.cn_region(), pr.genome, f, **params)
             except util.Slow:
@@ -284,6 +286,72 @@ def _history_shipped_case(res, case):
             res.check("same_operation_same_result", x == lst[0],
                       "the same gene, sample and profile gave different results after other runs in the same process",
                       profile_sample=list(key), first=str(lst[0])[:300], other=str(x)[:300], **desc)
+    return desc
+
+
+def _simple_multi_case(res, case):
+    """One-line-per-gene output of a multi-gene run vs the same genes run alone, with a gene that fails at
+    different stages (no reads / no candidate allele for a user-supplied structure / unknown configuration)."""
+    from aldy.common import AldyException
+
+    rng = util.rng_for("c14sm", case["seed"], case["k"])
+    pr = Pair(rng)
+    rl, depth = 100, 20
+    ca = _sim.random_genotype(pr.a, rng, n=2, allow_structural=False)
+    cb = _sim.random_genotype(pr.b, rng, n=2, allow_structural=False)
+    ra, rb = pr.a.reference_copy(), pr.b.reference_copy()
+    refbam = pr.bam("sm_ref.bam", [ra, ra], [rb, rb], rl, depth, rng)
+    bam = pr.bam("sm_s.bam", ca, cb, rl, depth, rng)
+    params = {}
+    gb = pr.b.gene
+    cfgs = [c for c, v in gb.cn_configs.items() if c != "1" and c != gb.deletion_allele()
+            and all(gb.alleles[a].func_muts for a in v.alleles)]
+    mode = rng.choice(["no_candidate", "no_candidate", "unknown_config", "none"])
+    if mode == "no_candidate" and cfgs:
+        params["cn_solution"] = [rng.choice(cfgs), "1"]
+    elif mode == "unknown_config":
+        only_b = [c for c in gb.cn_configs if c not in pr.a.gene.cn_configs]
+        if only_b:
+            params["cn_solution"] = [only_b[0], "1"]
+    order = rng.choice([[pr.a.path, pr.b.path, pr.c.path], [pr.b.path, pr.a.path], [pr.c.path, pr.b.path, pr.a.path]])
+    desc = {"dbs": [pr.a.label, pr.b.label, pr.c.label], "mode": mode, "params": {k: v for k, v in params.items()},
+            "order": [os.path.basename(p) for p in order]}
+
+    def run(paths, tag):
+        outp = os.path.join(util.scratch_dir(), f"sm_{tag}.simple")
+        with open(outp, "w") as f:
+            try:
+                with util.time_limit(120):
+                    if "cn_solution" in params:
+                        from aldy.genotype import genotype
+
+                        genotype(",".join(paths), bam, None, f, genome=pr.genome, **params)
+                    else:
+                        _genotype(paths, bam, refbam, pr.cn_region(), pr.genome, f, **params)
+            except AldyException:
+                pass
+        return open(outp).read()
+
+    try:
+        multi = run(order, "multi")
+        singles = {p: run([p], f"single{i}") for i, p in enumerate(order)}
+    except util.Slow:
+        res.count("skipped_slow")
+        return None
+    # every line of the multi-gene file is one record
+    for ln in multi.split("\n"):
+        if not ln:
+            continue
+        f = ln.split("\t")
+        res.check("simple_one_record_per_line", f.count("GENX") <= 1 and f[0] == "sm_s",
+                  "a line of the multi-gene simple output holds more than one gene record", line=ln[:200], **desc)
+    res.check("simple_one_record_per_line", multi == "" or multi.endswith("\n"),
+              "multi-gene simple output ends with an unterminated line", tail=multi[-120:], **desc)
+    # the multi-gene file is the concatenation of the single-gene files, in order
+    expected = "".join(singles[p] for p in order)
+    res.check("multi_gene_equals_single", multi == expected,
+              "multi-gene simple output differs from the single-gene outputs put together",
+              multi=multi[:400], singles=expected[:400], **desc)
     return desc
 
 
@@ -690,7 +758,8 @@ def run(case):
     util.import_aldy()
     res = Res()
     fn = {"history": _history_case, "api": _api_case, "hashseed": _hashseed_case,
-          "minor_isolation": _minor_isolation_case, "history_shipped": _history_shipped_case}[case["kind"]]
+          "minor_isolation": _minor_isolation_case, "history_shipped": _history_shipped_case,
+          "simple_multi": _simple_multi_case}[case["kind"]]
     d = fn(res, case)
     res.fp = util.fingerprint([case, d])
     res.nontrivial = d is not None
